@@ -65,6 +65,12 @@ def build_universe(cfg, keys):
     return w, g, blocks, txs
 
 
+def netmsg_frame_block(block, mid, ts):
+    from harness import netmsg
+    from skepticoin.networking.messages import DataMessage, DATA_BLOCK
+    return netmsg.frame(netmsg.body(DataMessage(DATA_BLOCK, block), mid, 0, ts=ts))
+
+
 def to_ledger_blk(obs):
     """Observed block (TraceLedger JSON form) -> Ledger.tla record literal (powok precomputed)."""
     d = dict(obs)
@@ -569,6 +575,29 @@ def run(pid, tier, replay=None):
             facts.append({"clause": "C13:pending_transaction_not_valid_at_head", "holds": rep["not_valid_at_head_or_conflicting"] == 0,
                           "what": "send script, %s: %s" % (variant, rep)})
             chk.case(("send_script_pool", variant), nontrivial=True)
+        # an operating-system fault at the point where a refused transaction is dumped for debugging (a full /tmp): whatever happens to the
+        # connection, the transaction is not admitted
+        w_d, g_d, blocks_d, txs_d = build_universe(cfg, keys_s)
+        run_d = node_drv.NodeRun(w_d, g_d, peers=PEERS, tid=940000, clock0=5000)
+        try:
+            run_d.deliver_block("p", blocks_d[1])
+
+            def failing_dump(tx_):
+                raise OSError(28, "No space left on device")
+            run_d.node.disk.save_transaction_for_debugging = failing_dump
+            pool0 = [t_.hash() for t_ in run_d.node.pool()]
+            for tname in (1003, 1001, 1004):          # signed by the wrong key; valid; conflicts with the valid one
+                peer_ = [p_ for p_ in run_d.peers if run_d.node.is_open(p_)]
+                if not peer_:
+                    break
+                run_d.deliver_tx(peer_[0], txs_d[tname], label="dump_fails_%d" % tname)
+            pool1 = run_d.node.pool()
+            bad_ = [t_ for t_ in pool1 if t_.hash() in (txs_d[1003].hash(), txs_d[1004].hash())]
+            facts.append({"clause": "C13:invalid_or_conflicting_transaction_admitted", "holds": not bad_,
+                          "what": "refused transactions while the debugging dump fails with ENOSPC: %d of them pending afterwards" % len(bad_)})
+            chk.case(("dump_fails",), nontrivial=True)
+        finally:
+            run_d.close()
         if facts:
             vf, rf = tracecheck.run("TraceFacts", facts, {}, ids=[1], workers=1, timeout=300)
             chk.traces_validated += 1
@@ -615,6 +644,45 @@ def run(pid, tier, replay=None):
                 t = ptraces[t_id - 1]
                 chk.violation(clause, {"state_replaced_before_line_stop": t["k"], "of": t["of"], "second_thread_waited_for_the_lock": t["blocked"],
                                        "observed": {k2: t[k2] for k2 in ("pool_has_t", "head_is_new")}, "errors": t["errors"]}, {"clause": clause})
+    if pid == "C09":
+        # ---- an operating-system fault on one connection at relay time: its descriptor is dead under the node (closed / not registered any
+        #      more, while the peer book still lists it); an accepted new head still reaches every other peer exactly once
+        sk.apply_cfg(cfg)
+        rfacts = []
+        for fault in ("closed_socket", "selector_rejects"):
+            w_r, g_r, blocks_r, txs_r = build_universe(cfg, keys)
+            run_r = node_drv.NodeRun(w_r, g_r, peers=["p", "q", "r", "s"], tid=950000, clock0=5000)
+            try:
+                peer_q, sock_q = run_r.node.peers["q"]
+                if fault == "closed_socket":
+                    sock_q.closed = True                  # closed under the node: send / modify on it fail with EBADF
+                sel = run_r.node.local.selector
+                o_modify = sel.modify
+
+                def modify(fileobj, events, data=None, o_modify=o_modify, sock_q=sock_q):
+                    if fileobj is sock_q:
+                        raise ValueError("Invalid file descriptor: -1") if fault == "selector_rejects" else OSError(9, "Bad file descriptor")
+                    return o_modify(fileobj, events, data)
+                sel.modify = modify
+                for name_ in ("p", "r", "s"):
+                    run_r.node.take_sent(name_)
+                run_r.node.use_store()
+                run_r.node.deliver("p", netmsg_frame_block(blocks_r[1], 8801, run_r.clock()))
+                run_r.node.pump_writes()
+                copies = {}
+                for name_ in ("r", "s"):
+                    copies[name_] = sum(1 for (h_, m_) in run_r.node.take_sent(name_) if type(m_).__name__ == "DataMessage" and type(m_.data).__name__ == "Block"
+                                        and m_.data.hash() == blocks_r[1].hash())
+                accepted = blocks_r[1].hash() in run_r.node.chain().block_by_hash
+                rfacts.append({"clause": "C09:new_head_not_relayed_exactly_once", "holds": (not accepted) or all(v_ == 1 for v_ in copies.values()),
+                               "what": "one connection dead at relay time (%s): copies to the healthy peers %s, accepted %s" % (fault, copies, accepted)})
+                chk.case(("dead_peer_at_relay", fault), nontrivial=True)
+            finally:
+                run_r.close()
+        vr, rr = tracecheck.run("TraceFacts", rfacts, {}, ids=[1], workers=1, timeout=300)
+        chk.traces_validated += 1
+        for (line, clause) in tlc.tagged(rr, "FINDING"):
+            chk.violation(clause, {"run": rfacts[line - 1]["what"]}, {"clause": clause, "how": "dead_peer"})
     if pid in ("C09", "C12"):
         # ---- the relay path and the miner are the two writers of the block store's buffer (StoreLock)
         from checks import store as store_check
@@ -633,6 +701,8 @@ def run(pid, tier, replay=None):
             handover.stage_adversarial(chk, quick, rng, pid, cfg, keys, build_universe, lambda w_, b_: b_[7], "reward_above_subsidy_plus_fees")
         if pid == "C12":
             handover.stage_stale_snapshot(chk, pid, cfg, keys, build_universe)
+            handover.stage_full_block(chk, pid, keys)
+            sk.apply_cfg(cfg)
             # ---- the found block sent back by a neighbour while the miner's thread is still handling it (Echo)
             from checks import echo
             sk.apply_cfg(cfg)
